@@ -1,10 +1,11 @@
 import Driver.Proto
 import Driver.Tools
 import Driver.GraphCmd
+import Driver.SamplerCmd
 /-! `vrpdriver`: reads request lines from stdin, writes one reply line each -/
 open Vrp Vrp.Proto Vrp.Drv
 
-def allCmds : List (String × P String) := toolCmds ++ graphCmds
+def allCmds : List (String × P String) := toolCmds ++ graphCmds ++ samplerCmds
 
 def handle (line : String) : String :=
   let toks := (line.splitOn " ").filter (· ≠ "")
